@@ -95,10 +95,10 @@ fn judge<T: ?Sized + MaybeDynSized>(ctx: &mut Ctx, name: &str, t: &T, exp: &[u8]
     // the byte view must be obtainable here
     match catch(|| {
         let b = t.as_bytes();
-        (b.as_ptr() as usize, b.len())
+        (b.as_ptr() as usize, b.len(), t.as_ptr() as usize, MaybeDynSized::payload(t).len())
     }) {
-        Out::Val((p, l)) => {
-            if p != t as *const T as *const u8 as usize || l != sov {
+        Out::Val((p, l, ap, pl)) => {
+            if p != t as *const T as *const u8 as usize || l != sov || ap != p || pl != sov - core::mem::size_of::<T::Header>() {
                 viol(ctx, "as_bytes-extent", format!("as_bytes() -> {} bytes", l));
             }
         }
